@@ -391,7 +391,17 @@ def r16_eq_hash(ctx):
                     {tuple(g) for g in singles.values()}) != 1):
                 same = False
         allg = [g for b in blocks.values() for gs in b.values() for g in gs]
-        if allg or raw_used:
+        dynamic = [x.value for x in ast.walk(cmpf.node)
+                   if isinstance(x, ast.Constant) and isinstance(
+                       x.value, str) and x.value in CANON_DATE | CANON_TIME]
+        if (allg or raw_used) and dynamic and not raw_used and not (
+                any(g in CANON_DATE for g in allg)):
+            rep.undecided(rule, ctx.fkey(cmpf, None, "key-shape"),
+                          cmpf.loc(), "the date getter is selected by name "
+                          "(%s) and applied indirectly: which operand it is "
+                          "applied to is not read by this rule" % dynamic,
+                          P02)
+        elif allg or raw_used:
             canon = not raw_used and any(g in CANON_TIME for g in allg) \
                 and any(g in CANON_DATE for g in allg)
             rep.check(same and canon, rule,
@@ -469,8 +479,11 @@ def r16_eq_hash(ctx):
                             if len(srcs) == 2 and srcs[0] is not tn:
                                 order = [_roots(cmpf, s_) for s_ in srcs]
                 if order is None:
-                    rep.error("R16", "TimePoint._cmp: operands of %s not "
-                              "identified" % U(c))
+                    rep.undecided(rule, ctx.fkey(cmpf, c, "operand-order"),
+                                  cmpf.loc(c), "the operands of %s are "
+                                  "passed as an unpacked sequence whose "
+                                  "construction this rule does not read" %
+                                  U(c), P02)
                     continue
                 ra, rb = order
             elif len(c.args) != 2:
@@ -523,6 +536,15 @@ def _roots(f, expr, depth=0, seen=None):
                                     if isinstance(v, (ast.Tuple, ast.List)) \
                                             and len(v.elts) == len(t.elts):
                                         v = v.elts[i]
+                                    elif isinstance(v, ast.Call) and U(
+                                            v.func) == "map" and len(
+                                                v.args) == 2 and isinstance(
+                                                    v.args[1], (ast.Tuple,
+                                                                ast.List)) \
+                                            and len(v.args[1].elts) == len(
+                                                t.elts):
+                                        # a, b = map(f, (x, y))
+                                        v = v.args[1].elts[i]
                                     out |= _roots(f, v, depth + 1, seen)
     return out
 
